@@ -297,6 +297,51 @@ func parkedWorkers() int {
 	return cnt
 }
 
+// busyGoroutines counts goroutines of the server or of the harness (other than the caller) that are running or runnable:
+// when there is none, every goroutine has reached its next blocking point.
+func busyGoroutines() int {
+	stackMu.Lock()
+	defer stackMu.Unlock()
+	n := runtime.Stack(stackBuf, true)
+	cnt := 0
+	for i, g := range bytes.Split(stackBuf[:n], []byte("\n\n")) {
+		if i == 0 {
+			continue // the calling goroutine
+		}
+		nl := bytes.IndexByte(g, '\n')
+		if nl < 0 {
+			continue
+		}
+		head := g[:nl]
+		if !(bytes.Contains(head, []byte("[running")) || bytes.Contains(head, []byte("[runnable")) || bytes.Contains(head, []byte("[syscall"))) {
+			continue
+		}
+		if bytes.Contains(g, []byte("fasthttp.")) || bytes.Contains(g, []byte("main.")) {
+			cnt++
+		}
+	}
+	return cnt
+}
+
+// quiet waits until three consecutive goroutine dumps show no busy goroutine.
+func quiet() bool {
+	deadline := time.Now().Add(waitLimit)
+	ok := 0
+	for time.Now().Before(deadline) {
+		if busyGoroutines() == 0 {
+			ok++
+			if ok >= 3 {
+				return true
+			}
+		} else {
+			ok = 0
+		}
+		runtime.Gosched()
+		time.Sleep(20 * time.Microsecond)
+	}
+	return false
+}
+
 // ---- replay ---------------------------------------------------------------------------------------------------
 
 const (
@@ -338,19 +383,20 @@ type loopRec struct {
 }
 
 type replayer struct {
-	d      desc
-	s      *fasthttp.Server
-	mu     sync.Mutex
-	conns  []*connRec
-	loops  []*loopRec
-	blocks []string
-	kinds  map[string]int
-	stuck  bool
-	nrun   atomic.Int32
-	peak   atomic.Int32
-	nSC    int
-	base   int // worker goroutines parked before this case started (left over from stuck cases)
-	nLoops int
+	d        desc
+	s        *fasthttp.Server
+	mu       sync.Mutex
+	conns    []*connRec
+	loops    []*loopRec
+	blocks   []string
+	kinds    map[string]int
+	stuck    bool
+	unstable bool
+	nrun     atomic.Int32
+	peak     atomic.Int32
+	nSC      int
+	base     int // worker goroutines parked before this case started (left over from stuck cases)
+	nLoops   int
 }
 
 func n(i int) string { return fmt.Sprintf("%d%%nat", i) }
@@ -421,7 +467,7 @@ func obsOf(s *fasthttp.Server, running int, live map[uint32]int) string {
 		hlib.Z(int64(sv)), sortedIPs(fasthttp.VerifPerIPCounts(s)), hlib.Z(int64(running)), sortedIPs(live))
 }
 
-func (rp *replayer) emit(labels []string) {
+func (rp *replayer) snapshot() string {
 	running := 0
 	live := map[uint32]int{}
 	for _, r := range rp.conns {
@@ -432,10 +478,32 @@ func (rp *replayer) emit(labels []string) {
 			live[r.a.ip]++
 		}
 	}
+	return obsOf(rp.s, running, live)
+}
+
+// emit records a block: every goroutine has come to rest and two successive readings of the observables agree
+// (otherwise the case is classified unstable and judged neither way).
+func (rp *replayer) emit(labels []string) {
 	for _, l := range labels {
 		rp.kinds[strings.Fields(l)[0]]++
 	}
-	rp.blocks = append(rp.blocks, fmt.Sprintf("(Blk %s %s)", hlib.List(labels), obsOf(rp.s, running, live)))
+	var o string
+	stable := false
+	for try := 0; try < 6 && !stable; try++ {
+		if !quiet() {
+			continue
+		}
+		o = rp.snapshot()
+		if !quiet() {
+			continue
+		}
+		stable = o == rp.snapshot()
+	}
+	if !stable {
+		rp.unstable = true
+		o = rp.snapshot()
+	}
+	rp.blocks = append(rp.blocks, fmt.Sprintf("(Blk %s %s)", hlib.List(labels), o))
 }
 
 func (rp *replayer) newConn(ai int, loop int) *connRec {
@@ -471,7 +539,10 @@ func (rp *replayer) expectedParked() int {
 
 func (rp *replayer) waitParked() {
 	want := rp.base + rp.expectedParked()
-	if !waitFor(func() bool { return parkedWorkers() == want }) {
+	if !waitFor(func() bool { return busyGoroutines() == 0 && parkedWorkers() == want }) {
+		rp.stuck = true
+	}
+	if !quiet() {
 		rp.stuck = true
 	}
 }
@@ -923,6 +994,13 @@ func runReplay(d desc) hlib.Case {
 	for i, ip := range allIPs {
 		ips[i] = hlib.N(uint64(ip))
 	}
+	// the per-connection results are read after everything has come to rest as well
+	if !quiet() {
+		rp.unstable = true
+	}
+	for i, r := range rp.conns {
+		res[i] = connRes(r)
+	}
 	coq := fmt.Sprintf("(CReplay %s %s %s %s %s %s %s)", cfgCoq(d), hlib.Bool(documented), hlib.Bool(!stuck), hlib.List(ips),
 		hlib.List(rp.blocks), hlib.List(res), hlib.Z(int64(rp.peak.Load())))
 	ks := hlib.SortedKeys(rp.kinds)
@@ -936,6 +1014,10 @@ func runReplay(d desc) hlib.Case {
 	}
 	if stuck {
 		kind = "replay-stuck"
+	}
+	if rp.unstable && !stuck {
+		// the observables kept moving although no goroutine was runnable (should not happen; never judged on a guess)
+		return hlib.Case{Coq: "CUnstable", Sig: "", Kind: "replay-unstable", Size: len(rp.blocks)}
 	}
 	return hlib.Case{Coq: coq, Sig: sig, Kind: kind, Size: len(rp.blocks)}
 }
@@ -1161,10 +1243,11 @@ func runStale(d desc) hlib.Case {
 	if d.Variant == "shutdown" {
 		// the worker goroutine of connection 0 ends its run with c.Close(); wait until it has exited (pool stopped)
 		waitFor(func() bool { return y.isClosed() || parkedWorkers() == 0 })
-		time.Sleep(2 * time.Millisecond)
+		quiet()
 	} else {
 		wait(xdone)
 	}
+	quiet()
 	victim := y.isClosed() // nobody closed connection 1, its handler is still running
 	after := sortedIPs(fasthttp.VerifPerIPCounts(s))
 	// let connection 1 end (if its wrapper was emptied under its feet the response write panics; recovered above)
